@@ -64,6 +64,9 @@ func c13Sizes(c *C13Case) []int {
 		}
 	case "big":
 		s = []int{0, 4*1024*1024 + 17, 1, 4 * 1024 * 1024, 100, 4*1024*1024 + 1, 0, 5}
+	case "delayed-big":
+		// more than 16 MiB between a save request and the moment its checkpoint is popped
+		s = []int{10, 4 << 20, 4 << 20, 4<<20 + 5, 7, 4 << 20, 4<<20 - 3, 4 << 20, 10, 20}
 	case "tiny":
 		n := 5 + r.Intn(30)
 		for i := 0; i < n; i++ {
@@ -200,6 +203,45 @@ func c13One(env *Env, m *wvlib.Model, c *C13Case) {
 			modelOff = append(modelOff, x)
 		}
 	}
+	verifyResume := func(ck *wire.MessageReaderCheckpoint, popIdx int) {
+		// serialise like a real consumer would
+		var gb bytes.Buffer
+		if err := gob.NewEncoder(&gb).Encode(ck); err != nil {
+			env.R.Violate("checkpoint-not-serialisable:"+c.Comp.Algo, err.Error(), c)
+			return
+		}
+		ck2 := &wire.MessageReaderCheckpoint{}
+		if err := gob.NewDecoder(&gb).Decode(ck2); err != nil {
+			env.R.Violate("checkpoint-not-deserialisable:"+c.Comp.Algo, err.Error(), c)
+			return
+		}
+		if modelOff != nil && popIdx-1 < len(modelOff) && ck2.Offset != modelOff[popIdx-1] {
+			env.R.Disagree(c, fmt.Sprintf("checkpoint after %d messages has offset %d", popIdx, ck2.Offset), fmt.Sprintf("frame boundary %d is at %d", popIdx, modelOff[popIdx-1]), "see violations")
+		}
+		rc2, err := c13Open(stream)
+		if err != nil {
+			env.R.Violate("open-error:"+c.Comp.Algo, err.Error(), c)
+			return
+		}
+		if err := rc2.Resume(ck2); err != nil {
+			env.R.Violate("resume-fails:"+c.Comp.Algo, fmt.Sprintf("checkpoint after message %d: %v", popIdx, err), c)
+			return
+		}
+		ok := true
+		for i := popIdx; i < len(msgs); i++ {
+			got := &pwr.SyncOp{}
+			if err := rc2.ReadMessage(got); err != nil || !sameMsg(got, msgs[i]) {
+				env.R.Violate("resume-not-exact:"+c.Comp.Algo, fmt.Sprintf("resumed after message %d: message %d wrong (%v)", popIdx, i, err), c)
+				ok = false
+				break
+			}
+		}
+		if ok {
+			if err := rc2.ReadMessage(&pwr.SyncOp{}); errors.Cause(err) != io.EOF {
+				env.R.Violate("resume-no-clean-eof:"+c.Comp.Algo, fmt.Sprintf("%v", err), c)
+			}
+		}
+	}
 	// (b) request a save at every message boundary; resume from every popped checkpoint
 	popped := 0
 	for p := 0; p < len(msgs); p++ {
@@ -233,42 +275,41 @@ func c13One(env *Env, m *wvlib.Model, c *C13Case) {
 			continue
 		}
 		popped++
-		// serialise like a real consumer would
-		var gb bytes.Buffer
-		if err := gob.NewEncoder(&gb).Encode(ck); err != nil {
-			env.R.Violate("checkpoint-not-serialisable:"+c.Comp.Algo, err.Error(), c)
-			continue
-		}
-		ck2 := &wire.MessageReaderCheckpoint{}
-		if err := gob.NewDecoder(&gb).Decode(ck2); err != nil {
-			env.R.Violate("checkpoint-not-deserialisable:"+c.Comp.Algo, err.Error(), c)
-			continue
-		}
-		if modelOff != nil && popIdx-1 < len(modelOff) && ck2.Offset != modelOff[popIdx-1] {
-			env.R.Disagree(c, fmt.Sprintf("checkpoint after %d messages has offset %d", popIdx, ck2.Offset), fmt.Sprintf("frame boundary %d is at %d", popIdx, modelOff[popIdx-1]), "see violations")
-		}
-		rc2, err := c13Open(stream)
-		if err != nil {
-			env.R.Violate("open-error:"+c.Comp.Algo, err.Error(), c)
-			continue
-		}
-		if err := rc2.Resume(ck2); err != nil {
-			env.R.Violate("resume-fails:"+c.Comp.Algo, fmt.Sprintf("checkpoint after message %d: %v", popIdx, err), c)
-			continue
-		}
-		ok := true
-		for i := popIdx; i < len(msgs); i++ {
-			got := &pwr.SyncOp{}
-			if err := rc2.ReadMessage(got); err != nil || !sameMsg(got, msgs[i]) {
-				env.R.Violate("resume-not-exact:"+c.Comp.Algo, fmt.Sprintf("resumed after message %d: message %d wrong (%v)", popIdx, i, err), c)
-				ok = false
-				break
+		verifyResume(ck, popIdx)
+	}
+	// (c) ONE save request, the checkpoint popped only several messages later: the reader's offset is then far ahead
+	// of the point the source restarts from, and Resume has to discard everything in between
+	for _, p := range []int{0, 1, len(msgs) / 2} {
+		for _, delay := range []int{1, 3, len(msgs) - 3, len(msgs)} {
+			if p >= len(msgs) || delay < 1 {
+				continue
 			}
-		}
-		if ok {
-			if err := rc2.ReadMessage(&pwr.SyncOp{}); errors.Cause(err) != io.EOF {
-				env.R.Violate("resume-no-clean-eof:"+c.Comp.Algo, fmt.Sprintf("%v", err), c)
+			rc, err := c13Open(stream)
+			if err != nil {
+				return
 			}
+			var ck *wire.MessageReaderCheckpoint
+			popIdx := -1
+			for i := 0; i < len(msgs); i++ {
+				if i == p {
+					rc.WantSave()
+				}
+				if err := rc.ReadMessage(&pwr.SyncOp{}); err != nil {
+					env.R.Violate("read-error-with-save:"+c.Comp.Algo, fmt.Sprintf("message %d: %v", i, err), c)
+					return
+				}
+				if i >= p+delay || i == len(msgs)-1 {
+					if ck = rc.PopCheckpoint(); ck != nil {
+						popIdx = i + 1
+						break
+					}
+				}
+			}
+			if ck == nil {
+				continue
+			}
+			env.R.Count("delayed-pop-resumes", 1)
+			verifyResume(ck, popIdx)
 		}
 	}
 	// the uncompressed inner stream parses to the same bodies in the model
@@ -296,7 +337,7 @@ func c13One(env *Env, m *wvlib.Model, c *C13Case) {
 
 func runC13(env *Env) {
 	R := env.R
-	R.Rule = "message sequences (sizes 0 .. > 4 MiB, messages with an empty encoding incl. as the last one, encoded lengths on both sides of every uvarint prefix step (127/128, 16383/16384, 2097151/2097152), lengths straddling 32 KiB and the power-of-two growth steps, large then small) x {none, gzip -2..9, brotli 0..9}; a save is requested at every message boundary, every popped checkpoint is gob-serialised and resumed in a new reader over the same bytes; distinct by (seed, compression); non-trivial = at least one checkpoint was popped and resumed"
+	R.Rule = "message sequences (sizes 0 .. > 4 MiB, messages with an empty encoding incl. as the last one, encoded lengths on both sides of every uvarint prefix step (127/128, 16383/16384, 2097151/2097152), lengths straddling 32 KiB and the power-of-two growth steps, large then small) x {none, gzip -2..9, brotli 0..9}; a save is requested at every message boundary - and, separately, once with the checkpoint popped several messages (up to > 16 MiB) later -, every popped checkpoint is gob-serialised and resumed in a new reader over the same bytes; distinct by (seed, compression); non-trivial = at least one checkpoint was popped and resumed"
 	if env.Replay != "" {
 		var c C13Case
 		replayCase(env, &c)
@@ -320,18 +361,21 @@ func runC13(env *Env) {
 	} else {
 		comps = []Comp{{"none", 0}, {"gzip", -2}, {"gzip", 1}, {"gzip", 9}, {"brotli", 0}, {"brotli", 1}, {"brotli", 5}, {"brotli", 9}}
 	}
-	nSeq := 7
+	nSeq := 8
 	if env.Thorough() {
 		nSeq = 40
 	}
 	rng := wvlib.NewRng(env.Seed)
-	shapes := []string{"straddle32k", "growth", "tiny", "random", "big", "random", "varint-edges"}
+	shapes := []string{"straddle32k", "growth", "tiny", "random", "big", "random", "varint-edges", "delayed-big"}
 	var cases []*C13Case
 	for i := 0; i < nSeq; i++ {
 		seed := rng.Next()
 		for _, comp := range comps {
 			sh := shapes[i%len(shapes)]
 			if sh == "big" && comp.Algo == "brotli" && comp.Quality > 5 && !env.Thorough() {
+				continue
+			}
+			if sh == "delayed-big" && !(comp.Quality <= 1 && comp.Quality >= 0) {
 				continue
 			}
 			cases = append(cases, &C13Case{Seed: seed, Comp: comp, Shape: sh})
